@@ -685,16 +685,23 @@ def placeInsertion (s1 : Sess) (a : RunRef) (before : Bool) (p : Para) (newText 
       { s2 with doc := modPara s2.doc a.para fun p =>
           ({ p with nodes := insertNodesAt p.nodes at_ [insNode] }, extra) }
 
+/-- anchor of an insertion: `get_insertion_point`; block-level text (new paragraphs / headings) in front of a
+paragraph keeps anchoring on the preceding paragraph (`get_insertion_anchor`), but only inside the same story -/
+def chooseAnchor (s : Sess) (spans : List OSpan) (start : Nat) (blockLevel : Bool) : Sess × Option RunRef × Bool :=
+  let r0 := insertionPoint s spans start
+  if r0.2.2 && start ≠ 0 && blockLevel then
+    let ra := insertionAnchor s spans start
+    let samePart : Bool := match ra.2, r0.2.1 with
+      | some x, some y => x.para.head? == y.para.head?
+      | _, _ => false
+    if samePart then (ra.1, ra.2, false) else (ra.1, r0.2.1, true)
+  else r0
+
 /-- the INSERTION branch of `_apply_single_edit_indexed` -/
 def applyInsertion (s : Sess) (spans : List OSpan) (start : Nat) (newText : Str) (comment : Option Str) : Sess × Bool :=
-  let r0 := insertionPoint s spans start
   let firstLine := (splitLines newText).headD []
   let blockLevel := (parseMdStyle firstLine).2.isSome || newText.any (fun c => c = '\n' || c = '\r')
-  let r1 : Sess × Option RunRef × Bool :=
-    if r0.2.2 && start ≠ 0 && blockLevel then
-      let ra := insertionAnchor s spans start
-      (ra.1, ra.2, false)
-    else r0
+  let r1 := chooseAnchor s spans start blockLevel
   match r1.2.1 with
   | none => (r1.1, false)
   | some a =>
